@@ -803,7 +803,10 @@ def check_c06(ctx, op, rec, spec, df, before_df, kw, v, det, outcome, exc,
     if kw.get('per_constraint') and not in_place:
         polluted = any(str(c).endswith('_ok') or str(c).startswith(
             'n_failures') or str(c) == 'Index' for c in before_df.columns)
-        if polluted:
+        if before_df.index.has_duplicates:
+            # rows cannot be identified by label
+            ctx.stats['abstain']['repeated_index_labels'] += 1
+        elif polluted:
             # columns named like detection outputs (left by an earlier
             # in-place op, or a field called n_failures): naming ambiguous
             ctx.stats['abstain']['frame_has_detection_like_columns'] += 1
